@@ -53,11 +53,16 @@ func gen(t *rapid.T) Case {
 	o.ExoticNames = rapid.IntRange(0, 2).Draw(t, "exoticNames") == 2
 	o.KeywordNames = rapid.IntRange(0, 2).Draw(t, "keywordNames") == 2
 	o.DeclForms = rapid.IntRange(0, 1).Draw(t, "declForms") == 1
-	switch rapid.IntRange(0, 5).Draw(t, "nameSharing") {
+	switch rapid.IntRange(0, 7).Draw(t, "nameSharing") {
 	case 4, 3, 2:
 		o.TwinNames = true
 	case 5:
 		o.WildcardProjectImports = true // never together with TwinNames: a name reached through a wildcard import has to be unique
+	case 6, 7:
+		// seventh seed batch: namesakes reached through on-demand imports, the way the rules of the language decide
+		// them (jgen/namesake_imports.go): a superclass `Base` that means billing.Base in one file and shipping.Base
+		// in another file of the same package, each through its own `import pkg.*;`
+		o.TwinNames, o.WildcardProjectImports, o.NamesakeImports, o.TwinReferrers = true, true, true, true
 	}
 	o.ExtraImps = rapid.IntRange(0, 3).Draw(t, "extraImports") == 3
 	o.SharedMethodNames = rapid.IntRange(0, 3).Draw(t, "sharedMethodNames") == 3
@@ -85,6 +90,40 @@ func gen(t *rapid.T) Case {
 		}
 	}
 	shapes = append(shapes, tweakTree(t, &p)...)
+	// seventh seed batch: two files of one package whose superclass bears the same simple name and means another
+	// class in each: neither a single-type import nor the own package provides it, each file reaches its class
+	// through its own on-demand import (com.acme.billing.model.Base / com.acme.shipping.model.Base)
+	if rapid.IntRange(0, 5).Draw(t, "wildcardSuperclassFamily") == 5 {
+		prefix, ok := "", false
+		for _, u := range p.Units {
+			tail := strings.ReplaceAll(u.Pkg, ".", "/") + "/" + u.Name + ".java"
+			if u.Role == "main" && u.Pkg != "" && strings.HasSuffix(u.Path, tail) {
+				prefix, ok = strings.TrimSuffix(u.Path, tail), true
+				break
+			}
+		}
+		if ok {
+			base := rapid.SampledFrom([]string{"WfBase", "Base9", "AbstractWfView"}).Draw(t, "wfBaseName")
+			holders := []string{"wf.billing.model", "wf.shipping.model", "wf.returns.model"}[:rapid.IntRange(2, 3).Draw(t, "wfHolders")]
+			viewPkg := rapid.SampledFrom([]string{"wf.web", "wf.web.views", "wf"}).Draw(t, "wfViewPkg")
+			add := func(pkg, name, text, extRaw, extFull string) {
+				path := prefix + strings.ReplaceAll(pkg, ".", "/") + "/" + name + ".java"
+				n := len(p.Units)
+				p.Files = append(p.Files[:n:n], append([]jgen.File{{Path: path, Text: text}}, p.Files[n:]...)...)
+				p.Units = append(p.Units, jgen.UnitTruth{Path: path, Role: "main", Pkg: pkg, Name: name, Kind: "Class", ExtendsRaw: extRaw, ExtendsFull: extFull})
+			}
+			for _, h := range holders {
+				add(h, base, "package "+h+";\n\npublic class "+base+" {\n}\n", "", "")
+			}
+			// the views, in an order of names that lets the walk meet them either way round
+			order := rapid.Permutation([]string{"AView", "MView", "ZView"}[:len(holders)]).Draw(t, "wfViewOrder")
+			for k, h := range holders {
+				name := "Wf" + order[k]
+				add(viewPkg, name, "package "+viewPkg+";\n\nimport "+h+".*;\n\npublic class "+name+" extends "+base+" {\n}\n", base, h+"."+base)
+			}
+			shapes = append(shapes, "same_simple_superclass_name_through_different_on_demand_imports")
+		}
+	}
 	// sixth seed batch: one fully qualified name declared by two files (the same class in two modules of a
 	// multi-module build): each declaration has its own entry
 	if rapid.IntRange(0, 5).Draw(t, "twinDeclaration") == 5 {
